@@ -94,7 +94,7 @@ def lift(v, kind_hint: Optional[str] = None) -> SV:
         return v
     if v is None:
         k = kind_hint or 'str'
-        return SV(k, z3.Const(fresh_name('nonearg'), SORTS[k]), z3.BoolVal(True))
+        return SV(k, z3.Const(f'none:{k}', SORTS[k]), z3.BoolVal(True))
     if isinstance(v, bool):
         if kind_hint == 'int':
             return SV('int', z3.IntVal(int(v)))
@@ -503,6 +503,18 @@ def ite(c, a, b, lift_strings: bool = True):
             pass
     if isinstance(a, tuple) and isinstance(b, tuple) and len(a) == len(b):
         return tuple(ite(c, x, y) for x, y in zip(a, b))
+    if type(a).__name__ == 'MDict' and type(b).__name__ == 'MDict' and a.is_concrete() and b.is_concrete():
+        # two concrete-key dicts: a record whose keys are present under the respective condition
+        out = SRec('ite-dict')
+        for k in list(dict.fromkeys(list(a.d) + list(b.d))):
+            ina, inb = k in a.d, k in b.d
+            if ina and inb:
+                out.slots[k] = Slot(True, ite(c, a.d[k], b.d[k]))
+            elif ina:
+                out.slots[k] = Slot(z_bool(c), a.d[k])
+            else:
+                out.slots[k] = Slot(z3.Not(z_bool(c)), b.d[k])
+        return out
     if isinstance(a, SRec) and isinstance(b, SRec):
         keys = list(dict.fromkeys(list(a.slots) + list(b.slots)))
         out = SRec(a.name)
